@@ -844,6 +844,35 @@ def b12(chk, tab):
     chk.floor("B12", 12)
 
 
+def b14(chk):
+    """User-defined parameters: the KVN writers emit `USER_DEFINED_<name>`; the KVN readers give back <name> whole, i.e.
+    they cut exactly that prefix (a slice from its length, removeprefix, or a split at the first occurrence of it)."""
+    prefix = "USER_DEFINED_"
+    n = 0
+    for rel in (CC + "opm.py", CC + "omm.py"):
+        w = chk.repo.func(rel, "_dumps_kvn")
+        wrote = [x for x in ast.walk(w.node) if isinstance(x, ast.JoinedStr) and x.values and isinstance(x.values[0], ast.Constant)
+                 and str(x.values[0].value).startswith(prefix)]
+        ok = len(wrote) == 1 and str(wrote[0].values[0].value) == prefix
+        chk.inst("B14", f"{w.ref}::writes-prefix", ok, f"writes `{prefix}<name> = <value>`" if ok else "the user-defined line changed", loc(w, wrote[0] if wrote else w.node))
+        r = chk.repo.func(rel, "_loads_kvn")
+        tests = [x for x in ast.walk(r.node) if isinstance(x, ast.If) and "startswith" in unparse(x.test) and "USER_DEFINED" in unparse(x.test)]
+        good, found = False, "?"
+        for t in tests:
+            var = unparse(t.test).split(".startswith")[0]
+            for x in ast.walk(t):
+                if isinstance(x, ast.Assign) and isinstance(x.targets[0], ast.Subscript):
+                    key = x.targets[0].slice
+                    found = unparse(key)
+                    txt = found.replace(" ", "")
+                    good = txt in (f"{var}[{len(prefix)}:]", f"{var}[len('{prefix}'):]", f'{var}[len("{prefix}"):]', f"{var}.removeprefix('{prefix}')",
+                                   f"{var}.split('{prefix}',1)[1]", f"{var}.partition('{prefix}')[2]", f"{var}.replace('{prefix}','',1)")
+        n += 1
+        chk.inst("B14", f"{r.ref}::cuts-prefix", good, f"the name is `{found}`: everything after `{prefix}`" if good else
+                 f"the name is taken as `{found}`, which is not 'everything after {prefix}': a name containing an underscore is read back changed", loc(r, tests[0] if tests else r.node))
+    chk.floor("B14", 4)
+
+
 def b13(chk):
     """A thrust arc is written by its ignition date and read back as `date_pos="start"`: on the writer side every function
     that distinguishes continuous maneuvers reads `.start` of a ContinuousMan and never its anchor `.date` (which is the
@@ -891,6 +920,7 @@ def b13(chk):
 
 
 def run(chk):
+    chk.rule("B14", "user-defined parameter names survive the KVN encoding whole (prefix written = prefix cut)")
     chk.rule("B13", "a thrust arc is written by its ignition date (.start) and read back with date_pos='start'")
     chk.rule("B11", "numbered / ordered components agree between both encodings and their readers")
     chk.rule("B12", "KVN and XML tokenisers (shape frozen by reading)")
@@ -919,5 +949,6 @@ def run(chk):
     chk.guard(b11, chk, tab)
     chk.guard(b12, chk, tab)
     chk.guard(b13, chk)
+    chk.guard(b14, chk)
     chk.assume("informational keys (header, markers, redundant osculating elements, START/STOP_TIME, GM, MAN_DELTA_MASS) need not round-trip; table in c13.py with reasons")
     chk.assume("rule C for dates under a TIME_SYSTEM is decided under C04")
